@@ -49,6 +49,7 @@ class Entry:
         self.d1 = kw.pop('d1', False)   # generic D1: split or-patterns that carry a guard
         self.d8 = kw.pop('d8', False)   # generic D8: closure parameter `_` -> `_x`
         self.with_scope = kw.pop('with_scope', None)   # D17: text of context.rs holding the macro definition -> expand with_scope!
+        self.strmatch = kw.pop('strmatch', False)   # generic D20: match on &str literals -> if / else-if chain
         self.closures = kw.pop('closures', False)   # generic D3/D16: Option / iterator closures -> match / loop (vlib/closures.py)
         self.all_loops = kw.pop('all_loops', None)     # invariant text applied to every loop without its own
         self.depth = kw.pop('depth', 0)                # brace depth at which the item sits (nested inline modules)
@@ -480,6 +481,14 @@ class Unit:
                 raise Undecided('D17 in %s: %s' % (e.qualname, ex))
             if nws:
                 self.desugar_log.append(('D17', '%s: %d with_scope! invocation(s) expanded by the macro definition of context.rs' % (e.qualname, nws)))
+        if e.strmatch:
+            from .closures import desugar_str_match, NoRule
+            try:
+                text, slog = desugar_str_match(text)
+            except NoRule as ex:
+                raise Undecided('D20 in %s: %s' % (e.qualname, ex))
+            for ln_ in slog:
+                self.desugar_log.append(('D20', '%s: %s' % (e.qualname, ln_)))
         if e.closures:
             from .closures import desugar_closures, NoRule
             try:
@@ -542,6 +551,15 @@ class Unit:
             anchor, where, gtext = g[0], g[1], g[2]
             if '@@REVEAL_STRLITS@@' in gtext:
                 gtext = gtext.replace('@@REVEAL_STRLITS@@', ' '.join('reveal_strlit(%s);' % l for l in strlits))
+            if '@@STRLIT_FACTS@@' in gtext:
+                # reveal_strlit is scoped to its block: state length and characters of every (escape-free) literal so that they persist
+                facts = []
+                for l in strlits:
+                    inner = l[1:-1]
+                    facts.append('reveal_strlit(%s);' % l)
+                    if '\\' not in inner and all(ord(c_) < 128 for c_ in inner):
+                        facts.append('assert(%s);' % ' && '.join(['%s@.len() == %d' % (l, len(inner))] + ["%s@[%d] == '%s'" % (l, i_, c_ if c_ != "'" else "\\'") for i_, c_ in enumerate(inner)]))
+                gtext = gtext.replace('@@STRLIT_FACTS@@', '\n'.join(facts))
             occ = g[3] if len(g) > 3 else 1
             idx = -1
             pos = 0
